@@ -49,6 +49,17 @@ class Injected(Exception):
     pass
 
 
+class InjectedInterrupt(KeyboardInterrupt):
+    """Ctrl-C / SIGINT / a spot interruption arriving inside the tuning loop (not an ``Exception``)."""
+
+
+class InjectedExit(SystemExit):
+    pass
+
+
+INJECT = {"Exception": Injected, "KeyboardInterrupt": InjectedInterrupt, "SystemExit": InjectedExit}
+
+
 def preload():
     import syne_tune  # noqa: F401
     import syne_tune.optimizer.schedulers.synchronous  # noqa: F401
@@ -71,11 +82,12 @@ def cases(tier, seed):
 def floors(tier):
     k = 1 if tier == "quick" else 25
     f = {f"field_decided:{x}": (15 if x == "max_wallclock_time" else 30) * k for x in FIELDS}
-    f.update({"ended:exception": 50 * k, "ended:exhaustion": 30 * k, "ended:failure_limit": 30 * k, "ended:criterion": 150 * k,
+    f.update({"ended:exception": 50 * k, "ended:exception:KeyboardInterrupt": 8 * k, "ended:exception:SystemExit": 8 * k, "ended:exhaustion": 30 * k, "ended:failure_limit": 30 * k, "ended:criterion": 150 * k,
               "decided:loop_ends": 5000 * k, "decided:counters_vs_history": 5000 * k, "decided:post_run_state": 400 * k,
               "decided:budget_overshoot": 100 * k, "runs:wait_trial_completion": 60 * k, "decided:results_file_rows": 300 * k,
               "decided:reentry_with_criterion_holding": 30 * k, "ended_by_criterion_after_exhaustion_with_trials_running": 5 * k,
-              "decided:criterion_at_loop_start": 5000 * k})
+              "decided:criterion_at_loop_start": 5000 * k,
+              "decided:second_experiment_sharing_thresholds": 20 * k})
     return f
 
 
@@ -136,6 +148,9 @@ def expand(spec):
                 stop[f] = dict(stop[f], never_reported=0.5)
             elif r < 0.6:
                 stop[f] = dict({"epoch": 1e9 if f == "max_metric_value" else -1.0}, **stop[f])
+    if "max_wallclock_time" in stop and not any(isinstance(v_, dict) for v_ in stop.values()) and rng.random() < 0.5:
+        # a wallclock budget together with a (generous) metric threshold: on the simulator both are rewritten into one criterion
+        stop["max_metric_value"] = {"loss": 1e9}
     if ending in ("exception", "failure_limit", "exhaustion") or not any(
             f in stop for f in ("max_num_trials_started", "max_num_evaluations", "max_wallclock_time")):
         # guarantee termination: a generous backstop (decided like any other field)
@@ -166,7 +181,7 @@ def expand(spec):
             p["late_criterion"] = True
     if ending == "exception":
         p["inject"] = {"where": rng.choice(["s.on_trial_result", "s.suggest", "b.fetch_status_results", "s.on_trial_add"]),
-                       "at": rng.randint(1, 25)}
+                       "at": rng.randint(1, 25), "exc": rng.choice(["Exception", "Exception", "KeyboardInterrupt", "SystemExit"])}
     p.update({k: v for k, v in spec.items() if k not in ("seed", "kind", "backend", "ending", "field") and not k.startswith("_")})
     return p, spec
 
@@ -217,6 +232,9 @@ def run_case(spec):
     kind = p["kind"]
     if p.get("wait"):
         o.count("runs:wait_trial_completion")
+    import copy
+
+    ref_stop = copy.deepcopy(p["stop"])  # the reference reads the criterion as the user wrote it, whatever happens to the objects later
     if sim:
         r = simrun.SimRun(p, spec["seed"])
     else:
@@ -232,11 +250,11 @@ def run_case(spec):
             # the status at the start of an iteration is the one the criterion was evaluated on after the previous one
             st = tuner.tuning_status
             if st is not None:
-                rec.ev("h.loop_start", hold=ref_criterion(p["stop"], st, sim), failed_over=st.num_trials_failed > p["max_failures"])
+                rec.ev("h.loop_start", hold=ref_criterion(ref_stop, st, sim), failed_over=st.num_trials_failed > p["max_failures"])
 
         def on_loop_end(self):
             st = tuner.tuning_status
-            hold = ref_criterion(p["stop"], st, sim)
+            hold = ref_criterion(ref_stop, st, sim)
             failed_over = st.num_trials_failed > p["max_failures"]
             rec.ev("h.loop_end", hold=hold, failed_over=failed_over,
                    counters={"started": st.num_trials_started, "completed": st.num_trials_completed,
@@ -257,7 +275,7 @@ def run_case(spec):
             cnt["n"] += 1
             if cnt["n"] == inj["at"]:
                 rec.ev("h.injected", where=inj["where"])
-                raise Injected(f"injected at {inj['where']} call {inj['at']}")
+                raise INJECT[inj.get("exc", "Exception")](f"injected at {inj['where']} call {inj['at']}")
             return orig(*a, **k)
 
         setattr(target, name, boom)
@@ -269,8 +287,9 @@ def run_case(spec):
     ended = None
     if exc is None:
         ended = "criterion"
-    elif isinstance(exc, Injected):
+    elif isinstance(exc, (Injected, InjectedInterrupt, InjectedExit)):
         ended = "exception"
+        o.count("ended:exception:" + inj.get("exc", "Exception"))
     elif type(exc).__name__ == "LoopBoundExceeded":
         o.inconclusive("loop_bound")
         ended = "loop_bound"
@@ -486,6 +505,36 @@ def run_case(spec):
                     V("no_start_once_criterion_holds", "trial_started_by_run_entered_with_criterion_holding", fields=holds_now,
                       call=k, counters={"started": st.num_trials_started, "completed": st.num_trials_completed})
                     break
+    # ---- a second simulated experiment that shares the user's threshold dict with the first one (a benchmark loop re-using
+    # its settings): it must end by its own criterion, not by anything the first run left in the shared objects
+    shared = [f for f in ("max_metric_value", "min_metric_value") if isinstance(p["stop"].get(f), dict)]
+    if sim and shared and "max_wallclock_time" in p["stop"] and not inj and ended in ("criterion", "exhaustion") and not viol[0]:
+        p2 = copy.deepcopy({k_: v_ for k_, v_ in p.items() if k_ != "stop"})
+        p2["stop"] = {f: p["stop"][f] for f in shared}            # the SAME dict objects
+        p2["stop"]["max_num_trials_started"] = 12
+        ref2 = {f: copy.deepcopy(ref_stop[f]) for f in shared}   # as the user wrote them
+        ref2["max_num_trials_started"] = 12
+        p2["wait"] = False
+        r2 = simrun.SimRun(p2, spec["seed"] + 1, name=f"stv2-{os.getpid()}-{spec['seed'] % 100000}")
+        held = {"ever": False}
+
+        class Watch2(TunerCallback):
+            def on_loop_end(self):
+                st2 = r2.tuner.tuning_status
+                if st2 is not None and ref_criterion(ref2, st2, True):
+                    held["ever"] = True
+
+        r2.tuner.callbacks.append(Watch2())
+        r2.run()
+        o.count("decided:second_experiment_sharing_thresholds")
+        none_at = any(e[1] == "s.suggest.ret" and e[2]["ret"] is None for e in r2.rec.events)
+        if r2.exc is None and not held["ever"] and not none_at:
+            V("ends_only_when_criterion_holds", "second_experiment_sharing_threshold_dict_returned_although_criterion_never_held",
+              thresholds_now={f: dict(p["stop"][f]) for f in shared}, thresholds_as_written={f: ref_stop[f] for f in shared},
+              first_run_wallclock=ref_stop["max_wallclock_time"])
+        import shutil
+
+        shutil.rmtree(str(r2.tuner.tuner_path), ignore_errors=True)
     if hasattr(r, "cleanup"):
         r.cleanup()
     else:
